@@ -125,6 +125,13 @@ SYSTEMS = {
             [[0.00, 0.00, 0.00], [0.74, 0.00, 0.00], [0.0, 0.0, 0.0]],
         ],
     ),
+    "h2_h2o": dict(
+        species=[[1, 1, 0], [8, 1, 1]],
+        coordinates=[
+            [[0.00, 0.00, 0.00], [0.74, 0.00, 0.00], [0.0, 0.0, 0.0]],
+            [[0.00, 0.00, 0.00], [0.96, 0.00, 0.00], [-0.24, 0.93, 0.00]],
+        ],
+    ),
     "nh3_h2o": dict(
         species=[[7, 1, 1, 1], [8, 1, 1, 0]],
         coordinates=[
